@@ -62,6 +62,29 @@ def shard(p):
             if kind != "num" and not f2:
                 continue
             cases.append((kind, f1, f2))
+        # large unit powers: a fixed-width summary of the exponent vector (i8/i16 per base, a hash) confuses powers that differ
+        # by a multiple of 256 / 65536 (seed C02-c). Conversion-free, prefix-free base units keep the values trivial.
+        plain = [e for e in bare if V.scale[e["key"]] == 1 and e["prefix"] == 0 and sum(1 for x in e["dims"] if x) == 1 and sum(e["dims"]) == 1]
+        BIG = [127, 128, 129, 255, 256, 257, 511, 512, 32767, 32768, 65535, 65536, 65537]
+        for i in range(p["n"] // 12 if plain else 0):
+            ea = rng.choice(plain)
+            P = rng.choice(BIG) * rng.choice([1, 1, -1])
+            r = rng.random()
+            if r < 0.35:
+                Q = P
+            elif r < 0.75:
+                Q = P + rng.choice([256, -256, 512, 65536, -65536, 256 * rng.randint(-3, 3)])
+            else:
+                Q = rng.choice([P + 1, P - 1, -P, P % 256, P % 65536, P - 256 if P > 0 else P + 256])
+            f1, f2 = [(ea, P)], ([(ea, Q)] if Q else [])
+            if rng.random() < 0.5:
+                eb = rng.choice([e for e in plain if e["key"] != ea["key"]])
+                pw = rng.choice([1, -1, 2])
+                f1.append((eb, pw))
+                f2.append((eb, pw))
+            if not f2:
+                continue
+            cases.append(("bigpow", f1, f2))
         for (a, b) in p["matrix"]:
             ea, eb = first_by_unit.get(a), first_by_unit.get(b)
             if ea and eb:
